@@ -63,6 +63,8 @@ type c04In struct {
 	Stream   int    `json:"stream,omitempty"`   // body kind json only: 0 = a value the producer serialises, 1 = an io.Reader over the serialised bytes, 2 = an io.ReadCloser
 	BigFile  int    `json:"big_file,omitempty"` // multipart only: the upload is this many bytes derived from FileSeed (compared by digest)
 	FileSeed int64  `json:"file_seed,omitempty"`
+	Kind     string `json:"kind,omitempty"`     // "hdr": one header parameter named HName with value H (any bytes), sent in process; the line on the wire is observed
+	HName    string `json:"h_name,omitempty"`   // declared name of the header parameter (default X-H)
 	Par      []c04In `json:"par,omitempty"`     // kind par: these calls are submitted at the same time, each against its own server
 }
 
@@ -83,6 +85,7 @@ type c04StepObs struct {
 type c04Obs struct {
 	SeqObs []c04StepObs `json:"seq_obs,omitempty"`
 	ParObs []c04Obs     `json:"par_obs,omitempty"`
+	WireHead Bs         `json:"wire_head,omitempty"` // kind hdr: the serialised request head
 	Signed Bs           `json:"signed,omitempty"` // what GetBody() gave the signing auth writer
 	SignCalled bool     `json:"sign_called,omitempty"`
 	Panicked  bool   `json:"panicked,omitempty"`
@@ -172,6 +175,10 @@ func (c04) Gen(r *rand.Rand, tier string, i int) any {
 		}
 		return in
 	}
+	if i%10 == 8 { // one header parameter; the line on the wire is compared with the model's writer and reader
+		return c04In{Kind: "hdr", Method: "GET", Template: "/r/{p1}", P1: "a", Body: "none", Produces: "json", RespBody: "ok", RespHdr: "h",
+			HasH: true, HName: c04HNames[r.Intn(len(c04HNames))], H: c04HdrVal(r)}
+	}
 	if i%10 == 9 {
 		in := c04In{BasePath: c04Bases[r.Intn(len(c04Bases))], Method: "GET", Template: []string{"/files", "/a/b", "/r"}[r.Intn(3)], Produces: "json"}
 		pool := []Bs{c04PathVal(r), c04PathVal(r), "a", "b", "a/b", "x"}
@@ -246,6 +253,37 @@ func (c04) Gen(r *rand.Rand, tier string, i int) any {
 	return in
 }
 
+func c04HName(in c04In) string {
+	if in.HName == "" {
+		return "X-H"
+	}
+	return in.HName
+}
+
+var c04HNames = []string{"X-H", "x-low-er", "X-MIXED-Case", "x_u.n~d", "X-9-a--b", "accept-Thing"}
+
+// c04HdrVal draws header values over the bytes that matter on the wire: white space at the ends and inside, CR and LF,
+// control bytes, DEL, bytes from 128 up, colons and commas.
+func c04HdrVal(r *rand.Rand) Bs {
+	const alpha = "ab:,;=\"  \t\t\r\n\x00\x01\x1f\x7f\x80\xc3\xa9\xff~!"
+	n := r.Intn(10)
+	b := make([]byte, n)
+	for i := range b {
+		if r.Intn(3) == 0 {
+			b[i] = alpha[r.Intn(len(alpha))]
+		} else {
+			b[i] = byte(0x21 + r.Intn(0x5e))
+		}
+	}
+	switch r.Intn(6) {
+	case 0:
+		return Bs(" " + string(b))
+	case 1:
+		return Bs(string(b) + "\t ")
+	}
+	return Bs(b)
+}
+
 func c04Spec(in c04In) string {
 	params := []string{`{"name":"p1","in":"path","type":"string","required":true}`}
 	if strings.Contains(in.Template, "{p2}") {
@@ -254,7 +292,7 @@ func c04Spec(in c04In) string {
 	params = append(params, `{"name":"q1","in":"query","type":"string"}`,
 		`{"name":"qm","in":"query","type":"array","items":{"type":"string"},"collectionFormat":"multi"}`,
 		`{"name":"qn","in":"query","type":"integer","format":"int64"}`,
-		`{"name":"X-H","in":"header","type":"string"}`)
+		fmt.Sprintf(`{"name":%q,"in":"header","type":"string"}`, c04HName(in)))
 	consumes := `["application/json"]`
 	switch in.Body {
 	case "form":
@@ -310,7 +348,7 @@ type c04Seekable struct {
 func (c04Seekable) Close() error   { return nil }
 func (f c04Seekable) Name() string { return f.name }
 
-type c04Transport struct{ h http.Handler; target *Bs }
+type c04Transport struct{ h http.Handler; target *Bs; head *Bs }
 
 func (t c04Transport) RoundTrip(req *http.Request) (*http.Response, error) {
 	var buf bytes.Buffer
@@ -319,6 +357,11 @@ func (t c04Transport) RoundTrip(req *http.Request) (*http.Response, error) {
 	}
 	if i := bytes.IndexByte(buf.Bytes(), '\r'); i > 0 {
 		*t.target = Bs(buf.Bytes()[:i])
+	}
+	if t.head != nil {
+		if i := bytes.Index(buf.Bytes(), []byte("\r\n\r\n")); i > 0 {
+			*t.head = Bs(buf.Bytes()[:i+4])
+		}
 	}
 	sreq, err := http.ReadRequest(bufio.NewReader(&buf))
 	if err != nil {
@@ -392,7 +435,7 @@ func c04RunSeq(in c04In, obs *c04Obs) {
 		so := c04StepObs{RanOp: -1}
 		cur = &so
 		rt := client.New("example.test", in.BasePath, []string{"http"})
-		rt.Transport = c04Transport{h, &tgt}
+		rt.Transport = c04Transport{h, &tgt, nil}
 		pattern := in.Template + "/{p1}"
 		if st.Op == 1 {
 			pattern = in.Template + "/{p1}/{p2}"
@@ -536,7 +579,10 @@ func c04RunOne(in c04In) c04Obs {
 			defer srv.Close()
 			rt = client.New(srv.Listener.Addr().String(), in.BasePath, []string{"http"})
 		} else {
-			rt.Transport = c04Transport{h, &obs.Target}
+			rt.Transport = c04Transport{h, &obs.Target, nil}
+			if in.Kind == "hdr" {
+				rt.Transport = c04Transport{h, &obs.Target, &obs.WireHead}
+			}
 		}
 		rt.Consumers["text/plain"] = runtime.TextConsumer()
 		op := &runtime.ClientOperation{
@@ -558,7 +604,7 @@ func c04RunOne(in c04In) c04Obs {
 					_ = req.SetQueryParam("qn", fmt.Sprint(in.QN))
 				}
 				if in.HasH {
-					_ = req.SetHeaderParam("X-H", string(in.H))
+					_ = req.SetHeaderParam(c04HName(in), string(in.H))
 				}
 				switch in.Body {
 				case "form":
@@ -657,7 +703,7 @@ func c04Supplied(in c04In) map[string][]Bs {
 		m["qn"] = []Bs{Bs(fmt.Sprint(in.QN))}
 	}
 	if in.HasH && in.H != "" {
-		m["X-H"] = []Bs{in.H}
+		m[c04HName(in)] = []Bs{in.H}
 	}
 	switch in.Body {
 	case "form":
@@ -725,6 +771,15 @@ func (c04) Coq(inAny any, obsAny any) string {
 		}
 		return fmt.Sprintf("CRoundSeq %s [%s]", coqBool(obs.Panicked), strings.Join(steps, "; "))
 	}
+	if in.Kind == "hdr" {
+		line, next := c04HdrLines(obs.WireHead, c04HName(in))
+		var recv Bs
+		if v := obs.Recv[c04HName(in)]; len(v) == 1 {
+			recv = v[0]
+		}
+		return fmt.Sprintf("CHdrWire %s %s %s %s %s %s %s", coqBytes(c04HName(in)), coqBytes(string(in.H)), coqBytes(string(line)), coqBytes(string(next)),
+			coqBool(obs.Panicked || obs.SubmitErr != ""), coqBool(obs.Ran), coqBytes(string(recv)))
+	}
 	if len(in.Par) > 0 {
 		steps := make([]string, 0, len(in.Par))
 		for i, sub := range in.Par {
@@ -744,6 +799,28 @@ func (c04) Coq(inAny any, obsAny any) string {
 		coqPair(coqBytes(string(in.RespHdr)), coqBytes(string(in.RespBody))),
 		coqNat(obs.SeenCode), coqPair(coqBytes(string(obs.SeenHdr)), coqBytes(string(obs.SeenBody))),
 		coqBool(true))
+}
+
+// c04HdrLines finds the line of the named field in a serialised request head (names compare case-insensitively) and the
+// line that follows it, both with their CRLF.
+func c04HdrLines(head Bs, name string) (line, next Bs) {
+	rest := string(head)
+	for rest != "" {
+		i := strings.Index(rest, "\r\n")
+		if i < 0 {
+			break
+		}
+		l := rest[:i+2]
+		rest = rest[i+2:]
+		if k, _, ok := strings.Cut(l, ":"); ok && strings.EqualFold(k, name) {
+			j := strings.Index(rest, "\r\n")
+			if j >= 0 {
+				return Bs(l), Bs(rest[:j+2])
+			}
+			return Bs(l), Bs(rest)
+		}
+	}
+	return "", ""
 }
 
 // c04AuthOK: the server saw the credential the auth writer set; a signing writer was called and, where the body is a
@@ -778,6 +855,21 @@ func (c04) Category(inAny any, obsAny any) (string, bool) {
 	in := inAny.(c04In)
 	if len(in.Par) > 0 {
 		return fmt.Sprintf("parallel/%d-uploads-in-flight", len(in.Par)), true
+	}
+	if in.Kind == "hdr" {
+		cls := "value-survives-as-is"
+		v := string(in.H)
+		switch {
+		case strings.ContainsAny(v, "\x00\x01\x1f\x7f"):
+			cls = "control-byte"
+		case strings.ContainsAny(v, "\r\n"):
+			cls = "CR-or-LF"
+		case v != strings.Trim(v, " \t"):
+			cls = "white-space-at-an-end"
+		case v == "":
+			cls = "empty"
+		}
+		return "header-wire/" + cls, true
 	}
 	if len(in.Seq) > 0 {
 		return fmt.Sprintf("history/%d-calls-one-server", len(in.Seq)), true
